@@ -25,6 +25,7 @@ import (
 	"os"
 	"os/exec"
 	"path/filepath"
+	"regexp"
 	"runtime/debug"
 	"sort"
 	"strings"
@@ -178,8 +179,19 @@ func makeDocs(n int) []Doc {
 	docs := loadCorpus()
 	rng := vlib.NewRng(vlib.Seed())
 	var gen []Doc
-	for i := 0; len(docs)+len(gen) < n; i++ {
-		gen = append(gen, genDoc(rng.Fork(), i))
+	nGen := n - 3 // the corpus had 3 documents when the tier sizes were chosen
+	for i := 0; i < nGen; i++ {
+		d := genDoc(rng.Fork(), i)
+		gen = append(gen, d)
+		// a sibling: the same document with another root font size, rendered
+		// next with the same (shared) user stylesheets -- whatever a render
+		// leaves behind in a stylesheet object (an em resolved in place) is
+		// wrong for the sibling
+		if len(d.CSS) > 0 && rng.Chance(1, 3) {
+			if sib, ok := sibling(d, rng); ok {
+				gen = append(gen, sib)
+			}
+		}
 	}
 	probes := probeDocs()
 	// probes in a seed-dependent order
@@ -196,6 +208,22 @@ func makeDocs(n int) []Doc {
 		}
 	}
 	return docs
+}
+
+var rootFontRe = regexp.MustCompile(`html \{ font-size: (\d+)px \}`)
+
+func sibling(d Doc, rng *vlib.Rng) (Doc, bool) {
+	m := rootFontRe.FindStringSubmatch(d.HTML)
+	if m == nil {
+		return d, false
+	}
+	var size int
+	fmt.Sscanf(m[1], "%d", &size)
+	sib := d
+	sib.Name = d.Name + "-sib"
+	sib.HTML = strings.Replace(d.HTML, m[0], fmt.Sprintf("html { font-size: %dpx }", size+rng.Range(2, 5)), 1)
+	sib.Tags = append(append([]string{}, d.Tags...), "sibling")
+	return sib, true
 }
 
 // ------------------------------------------------------------------ Coq printers
@@ -371,24 +399,45 @@ func omapCases(w *vlib.Writer, rng *vlib.Rng, n int) {
 // raceCase runs the second binary (built with -race by checks/C15.py, path in
 // VERIF_C15_RACE_BIN) on the concurrent batches and turns the detector's
 // reports into one CRace case.
-func raceCase(w *vlib.Writer, dir string) {
+type raceRun struct {
+	bin, n, rounds string
+	t0             time.Time
+	done           chan struct{}
+	out            string
+	err            error
+}
+
+// startRace launches the -race binary in the background (it is independent of
+// the comparisons of this process); finishRace waits for it
+func startRace() *raceRun {
 	bin := os.Getenv("VERIF_C15_RACE_BIN")
 	if bin == "" {
+		return nil
+	}
+	r := &raceRun{bin: bin, n: os.Getenv("VERIF_C15_RACE_N"), rounds: os.Getenv("VERIF_C15_RACE_ROUNDS"), t0: time.Now(), done: make(chan struct{})}
+	if r.n == "" {
+		r.n = "16"
+	}
+	if r.rounds == "" {
+		r.rounds = "1"
+	}
+	go func() {
+		cmd := exec.Command(bin, "-mode", "race", "-n", r.n, "-rounds", r.rounds)
+		cmd.Env = append(os.Environ(), "GORACE=halt_on_error=0")
+		ob, err := cmd.CombinedOutput()
+		r.out, r.err = string(ob), err
+		close(r.done)
+	}()
+	return r
+}
+
+func (r *raceRun) finish(w *vlib.Writer) {
+	if r == nil {
 		return
 	}
-	n := os.Getenv("VERIF_C15_RACE_N")
-	if n == "" {
-		n = "16"
-	}
-	rounds := os.Getenv("VERIF_C15_RACE_ROUNDS")
-	if rounds == "" {
-		rounds = "1"
-	}
-	t0 := time.Now()
-	cmd := exec.Command(bin, "-mode", "race", "-n", n, "-rounds", rounds)
-	cmd.Env = append(os.Environ(), "GORACE=halt_on_error=0")
-	ob, err := cmd.CombinedOutput()
-	outS := string(ob)
+	<-r.done
+	bin, n, rounds, t0 := r.bin, r.n, r.rounds, r.t0
+	outS, err := r.out, r.err
 	if err != nil && !strings.Contains(outS, "race-mode: rendered") {
 		fmt.Fprintf(os.Stderr, "race binary failed: %v\n%s\n", err, tail(outS, 3000))
 		os.Exit(4)
@@ -497,9 +546,9 @@ func main() {
 			tr0 = time.Now()
 		}
 		for _, d := range loadCorpus() {
-			sameBatch(d, batchN)
+			sameBatch(d, 4)
 		}
-		lap("corpus x8")
+		lap("corpus x4")
 		// every table probe by all goroutines at once (first use of each
 		// hyphenation dictionary, of the counter styles ...)
 		for _, d := range docs {
@@ -545,6 +594,7 @@ func main() {
 	w := vlib.NewWriter(*out)
 	defer w.Close()
 	workDir := filepath.Dir(*out)
+	race := startRace()
 	par := 16
 
 	// --- fresh processes
@@ -695,7 +745,7 @@ func main() {
 		}
 	}
 
-	raceCase(w, workDir)
+	race.finish(w)
 
 	rng := vlib.NewRng(vlib.Seed() ^ 0xc15)
 	unpackCases(w, rng)
